@@ -80,7 +80,13 @@ impl Solver {
     pub fn check(&mut self) -> Sat {
         self.queries += 1;
         let t0 = Instant::now();
-        self.send("(check-sat)");
+        // SAT-based bit-blasting on the current assertion stack is ~5x faster than z3's incremental
+        // SMT core on the hard (unsat) feasibility queries and equal on the many small ones
+        if self.kind.contains("cvc5") || std::env::var("SYMK_PLAIN_CHECKSAT").is_ok() {
+            self.send("(check-sat)");
+        } else {
+            self.send("(check-sat-using (then simplify propagate-values solve-eqs bit-blast sat))");
+        }
         let l = self.read_line();
         self.time += t0.elapsed();
         match l.as_str() {
